@@ -22,6 +22,7 @@ class LoopGen:
         self.allocs = allocs
         self.tag = 0
         self.uses_div = False
+        self.uses_cell = False
 
     def fresh(self, p="x"):
         self.n += 1
@@ -49,6 +50,19 @@ class LoopGen:
         """alloc / dim / subview group observed through a test.op"""
         r = self.rng.random()
         self.tag += 1
+        if self.rng.random() < 0.1:
+            # a size read from memory at a loop-invariant address (a parameter cell allocated in front of the loops), possibly updated by
+            # the loop body: the load is an observable read and must stay where it is
+            self.uses_cell = True
+            v, b = self.fresh("ld"), self.fresh("buf")
+            self.emit(ind, f"{v} = memref.load %cell[%c0] : memref<1xindex>")
+            self.emit(ind, f"{b} = memref.alloc({v}) {{alignment = 64 : i64}} : memref<?xi8>")
+            self.emit(ind, f'"test.op"({b}) {{tag = {self.tag} : i32}} : (memref<?xi8>) -> ()')
+            if self.rng.random() < 0.6:
+                w = self.fresh("x")
+                self.emit(ind, f"{w} = arith.addi {v}, %c1 : index")
+                self.emit(ind, f"memref.store {w}, %cell[%c0] : memref<1xindex>")
+            return
         if self.rng.random() < 0.15:
             # a size computed by a division whose divisor is zero exactly when the code is not reached (loop bounded by the divisor, or
             # an explicit guard): the operands are defined outside the loop, but the division must not be executed speculatively
@@ -158,6 +172,8 @@ class LoopGen:
                 self.effect(2, [], extra)
             self.loop(2, 1, self.rng.choice([1, 2, 2, 3]), [], extra, perfect=self.rng.random() < 0.6)
         self.emit(2, "func.return")
+        if self.uses_cell:
+            self.lines[7:7] = ["    %cell = memref.alloc() : memref<1xindex>", "    memref.store %c2, %cell[%c0] : memref<1xindex>"]
         if self.uses_div:
             self.lines[7:7] = ["    %pn = arith.addi %n0, %c0 : index", "    %nz = arith.cmpi ne, %pn, %c0 : index"]
         body = "\n".join(self.lines)
